@@ -117,11 +117,16 @@ def np_full(ex, args, kwargs, node, st):
             f0 = float(fill) if concrete(fill) else fill
             st.heap[oid] = ArrObj(kind, items=[[f0] * c for _ in range(r)], shape=(r, c), pykind='ndarray', dtype='float')
         else:
-            st.heap[oid] = ArrObj(kind, arr=z3.K(IntS, z3.K(IntS, fv)),
-                                  shape=(r, c), pykind='ndarray', dtype='float')
+            arr = fresh('npfull', arr2sort(Val))
+            qi, qj = z3.Consts('nf_i!%d nf_j!%d' % (ex.qcount(), ex.qcount()), IntS)
+            st.assume(z3.ForAll([qi, qj], sel2(arr, qi, qj) == fv, patterns=[sel2(arr, qi, qj)]))
+            st.heap[oid] = ArrObj(kind, arr=arr, shape=(r, c), pykind='ndarray', dtype='float')
         return Ref(oid)
     n = ex.need_num(shape if not isinstance(shape, tuple) else shape[0], node)
-    st.heap[oid] = ArrObj(kind, arr=z3.K(IntS, fv), length=n, pykind='ndarray', dtype='float')
+    arr = fresh('npfull', z3.ArraySort(IntS, Val))
+    qi = z3.Const('nf_i!%d' % ex.qcount(), IntS)
+    st.assume(z3.ForAll([qi], z3.Select(arr, qi) == fv, patterns=[z3.Select(arr, qi)]))
+    st.heap[oid] = ArrObj(kind, arr=arr, length=n, pykind='ndarray', dtype='float')
     return Ref(oid)
 
 
